@@ -7,6 +7,7 @@ TB_CLOSURE=("Trusted: govc (VC generator), pegspec (the PEG semantics table of D
   "contracts of the runtime closures add/matchDot/memoize/memoizedResult are used at call sites (they are proved separately where claimed); Go semantics as modelled (mathematical integers for token counts); "
   "program shapes are bounded (schema family depth<=2 + corpus), inputs and callee behaviour are not; termination is not proved.")
 claims={
+ "C16":dict(cat="proof",text="Every function of set/set.go (NewSet, Has, Add, AddRange, Len, Copy, Union, Intersects, Complement, Equal, String) is verified against a contract whose post-condition is the mathematical statement of the property (membership, sum of interval lengths, union, non-empty intersection, complement within [0,limit], extensional equality), over the representation invariant wf (sorted, non-touching interval list with sentinels, ghost node set), for lists of arbitrary length: loop invariants, frames (operands unchanged), nil/overflow safety. 980 obligations, all discharged; the verifier found three genuine defects (String on the empty set, Complement off-by-one, structural Equal) that are repaired by fix: commits.",ref="6.16, Appendix A",note="Trusted: govc, SMT solvers, three axioms of the spec function cardFrom (sum of interval lengths along the list; guarded unfolding, consistent for every heap), the assumed contract of fmt.Sprintf, the paper lemma that the sum of lengths of disjoint intervals is the cardinality. String's text (ascending element list) is not specified beyond memory safety. Complement requires every element <= limit+1 (how peg calls it). Termination only for the lemma function.",tech="contract-based deductive verification (pre/post, loop invariants, ghost sets/maps, frames) with self-written VC generator, z3/cvc5"),
  "C01":dict(cat=TV,text="Each emitted rule closure of the schema family and of peg.peg (thorough: all shipped grammars) is proved, for all inputs, to return OK(rule,p0) and to stop at END(rule,p0), where OK/END are the PEG semantics derived from the grammar (not from the emitter); callees are used through the same contract, so the proof is compositional over opaque sub-rules. A proof per generated program, not a proof of the generator.",ref="6.1, 4, 5",note=TB_CLOSURE,tech="deductive translation validation: per-closure VCs (weakest-precondition style, guarded passive form) against contracts synthesised from the grammar, discharged by z3/cvc5"),
  "C03":dict(cat=TV,text="Same closures: the live token sequence abs(tree,tokenIndex) after a successful rule equals APP(rule,p0,before) (post-order record: sub-derivation tokens, captures, actions, then the rule's own token with exact rune offsets), is unchanged on failure, and nothing at or below the saved token index is overwritten (quantified frame), for all inputs.",ref="6.3, 4.3, 4.4",note=TB_CLOSURE,tech="deductive translation validation with an abstract token-sequence theory (abs/snoc) and quantified frame clauses"),
  "C11":dict(cat=TV,text="Same closures: after any attempt (success or failure) the furthest-token register equals MX(rule,p0,before), the specification of 'first non-empty token that reached the furthest offset'. Message formatting (translatePositions/Error) is not yet under contract in this check.",ref="6.11",note=TB_CLOSURE+" The parse/Error/translatePositions part of the property is not covered by this check yet.",tech="deductive translation validation (register clause of the rule contract)"),
